@@ -33,7 +33,7 @@ def values_for(rng, w, tier, exhaustive_bits):
     vs = {0, 1, (1 << w) - 1, 1 << (w - 1), (1 << w) - 2, 0x5555555555555555 & ((1 << w) - 1), 0xAAAAAAAAAAAAAAAA & ((1 << w) - 1)}
     for k in range(0, w, max(1, w // 8)):
         vs.add(1 << k)
-    n = 10 if tier == 'quick' else 400
+    n = 10 if tier == 'quick' else 120
     for _ in range(n):
         vs.add(rng.next() & ((1 << w) - 1))
     # in-range values of narrower fields stored in wide parameters (29-bit ids, 15/21-bit crcs, 6-bit ids ...)
@@ -46,8 +46,8 @@ def gen_acc_cases(rng, tier):
     idx = acc_index()
     spec = spec_list()
     cases = []
-    exb = 8 if tier == 'quick' else 16
-    nbg = 1 if tier == 'quick' else 12
+    exb = 8 if tier == 'quick' else 11
+    nbg = 1 if tier == 'quick' else 6
     for m in idx['methods']:
         size = m['size']
         bgs = [bytes(size), b'\xff' * size] + [rng.bytes(size) for _ in range(nbg)]
@@ -66,7 +66,7 @@ def gen_acc_cases(rng, tier):
         # reversal, complement, neighbours, in either byte order, at every aligned position) - early-outs / caches of setters live here
         if len(ps) >= 1 and m.get('writes'):
             w = ps[0]
-            nrel = 6 if tier == 'quick' else 40
+            nrel = 6 if tier == 'quick' else 16
             cand = [v for v in values_for(rng, w, tier, 0) if v not in (0, (1 << w) - 1)]
             picks = sorted(set([v for v in cand if v & (v - 1) == 0] + ([cand[rng.below(len(cand))] for _ in range(min(nrel, len(cand)))] if cand else [])))
             for v in picks:
